@@ -414,7 +414,7 @@ C13MethodCase(P, t) ==
 \* identifier shapes and service layouts
 C13Shapes == {"names", "keywords", "two_services_same_method", "two_services_headers", "no_services", "cross_file",
               "nested_annotated", "oneof_members", "acronym_method", "two_service_files", "cross_package_types",
-              "disc_oneof_scalars", "disc_oneof_mixed", "disc_oneof_flat", "disc_oneof_one_variant"}
+              "disc_oneof_scalars", "disc_oneof_mixed", "disc_oneof_flat", "disc_oneof_one_variant", "unwrap_container_siblings"}
 C13ShapeCase(P, sh) ==
   LET do(in, out) == Method("Do", in, out, TRUE, Parts(TRUE, <<Lit("do")>>, FALSE), "POST")
       one(msgs, ms) == Schema(<<File(P \o "/svc.proto", Pkg(P), GoPkg(P), TRUE, <<>>, <<Svc(P, ms)>>, <<Out(P), Child(P), Child2(P)>> \o msgs, <<EnumE, EnumPlain>>)>>)
@@ -474,6 +474,14 @@ C13ShapeCase(P, sh) ==
                                                               F("s", "s", 2, "string", "one")>>)>>)>>, <<do(FN(P, "W"), FN(P, "W"))>>)
        \* discriminated oneofs by what their variants are: scalars only, scalars and messages, messages
        \* only (flattened), a single variant
+       \* a message with a map-value unwrap field next to fields of every kind and cardinality
+       [] sh = "unwrap_container_siblings" ->
+            one(<<Msg("L", FN(P, "L"), <<Ann(FRef("items", "items", 1, "message", "rep", FN(P, "Child")), "unwrap", TRUE)>>),
+                  Msg("A", FN(P, "A"), <<FMap("by_key", "byKey", 1, "string", "message", FN(P, "L")), F("n", "n", 2, "int64", "one"), FRef("e", "e", 3, "enum", "one", FN(P, "P")),
+                                        F("b", "b", 4, "bytes", "one"), F("d", "d", 5, "double", "one"), FRef("t", "t", 6, "message", "one", "google.protobuf.Timestamp"),
+                                        F("ns", "ns", 7, "uint64", "rep"), FMap("m", "m", 8, "string", "int64", ""), F("o", "o", 9, "int32", "opt"),
+                                        FRef("es", "es", 10, "enum", "rep", FN(P, "P")), FRef("c", "c", 11, "message", "opt", FN(P, "Child")),
+                                        F("os", "os", 12, "string", "opt"), F("ob", "ob", 13, "bytes", "opt")>>)>>, <<do(FN(P, "A"), FN(P, "A"))>>)
        [] sh = "disc_oneof_scalars" ->
             one(<<MsgO("W", FN(P, "W"), <<F("k", "k", 1, "string", "one"), InOneof(F("text", "text", 2, "string", "one"), "value"),
                                          InOneof(F("number", "number", 3, "int64", "one"), "value"), InOneof(F("flag", "flag", 4, "bool", "one"), "value")>>,
@@ -703,7 +711,7 @@ C18Case(P, sh) ==
 (* top-level message.                                                      *)
 (***************************************************************************)
 Constructs == {"kinds", "wkt", "wkt2", "int64num", "enumcustom", "enumnum", "nullable", "empty", "ts", "bytes", "oneof", "oneofflat", "flatten",
-               "flattenprefix", "unwraplist", "unwrapmap", "multiword", "int64rep", "plain", "required", "oneofplus", "explicit", "flattentwice", "bytesrules", "oneofscalars", "unwrapmapplus"}
+               "flattenprefix", "unwraplist", "unwrapmap", "multiword", "int64rep", "plain", "required", "oneofplus", "explicit", "flattentwice", "bytesrules", "oneofscalars", "unwrapmapplus", "unwrapsiblings"}
 \* the annotated message A (and the helper messages it needs)
 ConstructMsgs(P, c) ==
   LET a(fs) == Msg("A", FN(P, "A"), fs)
@@ -757,6 +765,12 @@ ConstructMsgs(P, c) ==
        \* the value type of a map has an unwrap field AND another field
        [] c = "unwrapmapplus" -> <<Msg("Lp", FN(P, "Lp"), <<Ann(FRef("items", "items", 1, "message", "rep", ch), "unwrap", TRUE), F("cursor", "cursor", 2, "string", "one")>>),
                                    a(<<FMap("by_key", "byKey", 1, "string", "message", FN(P, "Lp")), F("sib_ling", "sibLing", 2, "string", "one")>>)>>
+       \* a message with a map-value unwrap field whose OTHER fields are of every kind
+       [] c = "unwrapsiblings" -> <<Msg("L", FN(P, "L"), <<Ann(FRef("items", "items", 1, "message", "rep", ch), "unwrap", TRUE)>>),
+                                    a(<<FMap("by_key", "byKey", 1, "string", "message", FN(P, "L")), F("n", "n", 2, "int64", "one"), FRef("e", "e", 3, "enum", "one", FN(P, "P")),
+                                        F("b", "b", 4, "bytes", "one"), F("d", "d", 5, "double", "one"), FRef("t", "t", 6, "message", "one", TS),
+                                        F("ns", "ns", 7, "uint64", "rep"), FMap("m", "m", 8, "string", "int64", ""), F("o", "o", 9, "int32", "opt"),
+                                        FRef("es", "es", 10, "enum", "rep", FN(P, "P")), FRef("c", "c", 11, "message", "one", ch)>>)>>
        \* a discriminated oneof whose variants are scalars (and one message)
        [] c = "oneofscalars" -> <<MsgO("A", FN(P, "A"), <<F("k", "k", 1, "string", "one"), InOneof(F("text", "text", 2, "string", "one"), "value"),
                                      InOneof(F("number", "number", 3, "int64", "one"), "value"), InOneof(F("flag", "flag", 4, "bool", "one"), "value"),
@@ -802,4 +816,48 @@ C05Case(P, c, cx) ==
   IN Schema(<<File(P \o "/svc.proto", Pkg(P), GoPkg(P), TRUE, <<>>,
                    <<Svc(P, <<Method("Do", top, top, TRUE, Parts(TRUE, <<Lit("do")>>, FALSE), "POST")>>)>>,
                    <<Child(P), Child2(P)>> \o ConstructMsgs(P, c) \o ContextMsgs(P, cx), <<EnumE, EnumPlain>>)>>)
+(***************************************************************************)
+(* C06, parameters: ONE service whose request message has a URL-carried    *)
+(* field for every (kind, cardinality, annotation) combination the rules   *)
+(* accept - query parameters of every scalar kind as singular / optional / *)
+(* repeated, enums (plain, with custom values, NUMBER-encoded), 64-bit     *)
+(* integers with int64_encoding NUMBER, and a path variable per kind -      *)
+(* reached by a GET and by a PUT.                                          *)
+(***************************************************************************)
+ParamCombos ==
+     {<<k, c, "">> : k \in ScalarKinds \ {"bytes"}, c \in {"one", "opt", "rep"}}
+  \cup {<<k, "one", "num">> : k \in Int64Kinds}
+  \cup {<<"enum", "one", a>> : a \in {"", "custom", "num"}}
+ParamName(t) == "q_" \o t[1] \o "_" \o t[2] \o (IF t[3] = "" THEN "" ELSE "_" \o t[3])
+ParamField(P, t, num) ==
+  LET n == ParamName(t)
+      base == IF t[1] = "enum" THEN FRef(n, n, num, "enum", t[2], IF t[3] = "custom" THEN FN(P, "E") ELSE FN(P, "P"))
+              ELSE F(n, n, num, t[1], t[2])
+      q == Ann(base, "query", TRUE)
+  IN CASE t[3] = "num" /\ t[1] = "enum" -> Ann(q, "enumEnc", "NUMBER")
+       [] t[3] = "num" -> Ann(q, "int64", "NUMBER")
+       [] OTHER -> q
+C06ParamCase(P) ==
+  LET cs == SetToSeq(ParamCombos)
+      pk == SetToSeq(PathKinds)
+      pv(i) == "p_" \o pk[i]
+      qfs == [i \in DOMAIN cs |-> ParamField(P, cs[i], i)]
+      pfs == [i \in DOMAIN pk |-> F(pv(i), pv(i), 100 + i, pk[i], "one")]
+      segs == <<Lit("p")>> \o [i \in DOMAIN pk |-> Var(pv(i))]
+      body == <<F("note", "note", 200, "string", "one")>>
+      q == Msg("Q", FN(P, "Q"), qfs \o pfs)
+      qb == Msg("Qb", FN(P, "Qb"), qfs \o pfs \o body)
+  IN Schema(<<File(P \o "/svc.proto", Pkg(P), GoPkg(P), TRUE, <<>>,
+                   <<Svc(P, <<Method("Get", FN(P, "Q"), FN(P, "Out"), TRUE, Parts(TRUE, segs, FALSE), "GET"),
+                              Method("Put", FN(P, "Qb"), FN(P, "Out"), TRUE, Parts(TRUE, segs, FALSE), "PUT")>>)>>,
+                   <<Out(P), q, qb>>, <<EnumE, EnumPlain>>)>>)
+
+\* one annotated field (feature, kind, cardinality) as the RPC's message A
+C05Single(P, t) ==
+  LET f == AField(P, t[1], t[2], t[3], "a", 1)
+      a == IF t[1] = "unwrap" THEN Msg("A", FN(P, "A"), <<f>>)
+           ELSE Msg("A", FN(P, "A"), <<f, F("other_field", "otherField", 2, "string", "one")>>)
+  IN Schema(<<File(P \o "/svc.proto", Pkg(P), GoPkg(P), TRUE, <<>>,
+                   <<Svc(P, <<Method("Do", FN(P, "A"), FN(P, "A"), TRUE, Parts(TRUE, <<Lit("do")>>, FALSE), "POST")>>)>>,
+                   <<Child(P), Child2(P), a>>, <<EnumE, EnumPlain>>)>>)
 =============================================================================
